@@ -20,7 +20,7 @@ def run(diff):
         return diff,res
     finally:
         shutil.rmtree(S,ignore_errors=True); shutil.rmtree(V,ignore_errors=True)
-diffs=sorted(glob.glob('/verif/equivalents/*/*.diff'))
+diffs=sorted(glob.glob(os.environ.get('EQGLOB','/verif/equivalents/*/*.diff')))
 nv=nu=0
 with concurrent.futures.ThreadPoolExecutor(max_workers=11) as ex:
     for d,res in ex.map(run,diffs):
